@@ -110,7 +110,7 @@ type c12Call struct {
 	Expected string
 }
 
-var c12Scripts = []string{"inorder", "reversed-one-write", "late-within", "late-after-deadline", "duplicated", "unknown-serial-first", "never", "mixed"}
+var c12Scripts = []string{"inorder", "reversed-one-write", "late-within", "late-after-deadline", "duplicated", "unknown-serial-first", "never", "mixed", "reuse-object"}
 
 type c12Scenario struct {
 	Script    string `json:"terminal_script"`
@@ -253,7 +253,7 @@ func c12Run(srv *svc.Server, sc c12Scenario, r *core.Rand) (viol [][2]string, in
 				cmds++
 				script := sc.Script
 				if script == "mixed" {
-					script = c12Scripts[int(s.tag)%7]
+					script = c12Scripts[int(s.tag>>8)%7]
 				}
 				switch script {
 				case "inorder":
@@ -297,6 +297,14 @@ func c12Run(srv *svc.Server, sc c12Scenario, r *core.Rand) (viol [][2]string, in
 					answer(s)
 				case "never":
 					traffic()
+				case "reuse-object":
+					// the caller re-sends the SAME *ActiveMessage object: first command answered at once, the second one
+					// (flag bit 7 of the tag) only after 3/4 of the timeout, when a leftover timer of the first could hit it
+					if s.tag&0x80 != 0 {
+						go func(s *c12Seen) { time.Sleep(timeout * 3 / 4); answer(s) }(s)
+					} else {
+						answer(s)
+					}
 				}
 			}
 		}(ti, ts)
@@ -310,12 +318,29 @@ func c12Run(srv *svc.Server, sc c12Scenario, r *core.Rand) (viol [][2]string, in
 			cmd := c12Cmds[r.Intn(len(c12Cmds))]
 			go func(ti int, ts *termState, k int) {
 				defer wg.Done()
-				tag := c12Tag.Add(1)<<16 | uint64(ti)<<8 | uint64(k)
+				tag := c12Tag.Add(1)<<16 | uint64(ti)<<8 | uint64(k&0x7f)
 				body := binary.BigEndian.AppendUint64([]byte{1, 0, 0, 0xF0, 0x02, 8}, tag)
 				call := &c12Call{Tag: tag, Cmd: uint16(cmd.Cmd), Term: ti, Timeout: timeout, Start: time.Now(), Script: sc.Script}
-				call.Res = sendCmd(srv.G, ts.t.Phone, cmd.Cmd, body, timeout, timeout+slack)
+				if sc.Script != "reuse-object" {
+					call.Res = sendCmd(srv.G, ts.t.Phone, cmd.Cmd, body, timeout, timeout+slack)
+					cmu.Lock()
+					calls = append(calls, call)
+					cmu.Unlock()
+					return
+				}
+				// sequential reuse of one ActiveMessage object (the pattern of the repository's camera example)
+				am := service.NewActiveMessage(ts.t.Phone, cmd.Cmd, body, timeout)
+				call.Res = sendCmdObj(srv.G, am, timeout+slack)
 				cmu.Lock()
 				calls = append(calls, call)
+				cmu.Unlock()
+				time.Sleep(timeout / 2)
+				tag2 := tag | 0x80
+				am.Body = binary.BigEndian.AppendUint64([]byte{1, 0, 0, 0xF0, 0x02, 8}, tag2)
+				call2 := &c12Call{Tag: tag2, Cmd: uint16(cmd.Cmd), Term: ti, Timeout: timeout, Start: time.Now(), Script: sc.Script}
+				call2.Res = sendCmdObj(srv.G, am, timeout+slack)
+				cmu.Lock()
+				calls = append(calls, call2)
 				cmu.Unlock()
 			}(ti, ts, k)
 		}
@@ -407,6 +432,9 @@ func c12Run(srv *svc.Server, sc c12Scenario, r *core.Rand) (viol [][2]string, in
 					bad("match|caller received a response although the terminal never answered its command", fmt.Sprintf("tag %x script %s", call.Tag, sc.Script))
 				}
 			case "timeout":
+				if sc.Script == "reuse-object" && call.Res.dur < timeout*9/10 {
+					bad("timeout|timeout result long before the configured duration elapsed", fmt.Sprintf("tag %x (re-sent ActiveMessage object): returned after %v, timeout %v", call.Tag, call.Res.dur, timeout))
+				}
 				margin := timeout / 2
 				if margin < 400*time.Millisecond {
 					margin = 400 * time.Millisecond
@@ -480,6 +508,10 @@ func c12Worker(c *core.Collector, x *Ctx) {
 			TimeoutMs: core.Pick(r, []int{30, 60, 120, 400, 2000}), Base: 2000000 + x.Batch*100000 + i*10, Traffic: r.Chance(2, 3)}
 		if sc.Script == "never" || sc.Script == "late-after-deadline" {
 			sc.TimeoutMs = core.Pick(r, []int{30, 60, 120})
+		}
+		if sc.Script == "reuse-object" {
+			sc.TimeoutMs = core.Pick(r, []int{400, 800})
+			sc.Callers = 1 + r.Intn(2)
 		}
 		if i%8 == 0 && sc.Script == "inorder" {
 			sc.TimeoutMs = 2000 // immediate answers with a long timeout: a timeout result is decidable as illegal
